@@ -2,6 +2,7 @@ import Driver.Dec
 import Driver.Rid
 import Driver.Evq
 import Driver.EvqConc
+import Driver.StreamD
 /-! `mio-driver`: reads one case per line (`<model> <args…>`), prints what the model computes.
 Imports model files only (no Mathlib, no lemma files), so it links as a native executable. -/
 open Mio Mio.Driver
@@ -13,6 +14,7 @@ def dispatch (line : String) : String :=
   | "addr" :: ws => runAddr ws
   | "rid" :: ws => runRid ws
   | "vq" :: ws => runVq2 ws
+  | "stream" :: ws => runStream ws
   | _ => "bad-case"
 
 partial def loop (h : IO.FS.Stream) (out : IO.FS.Stream) : IO Unit := do
